@@ -312,6 +312,59 @@ def _d3(chk, fb):
         chk.refuted("D3", f.key, "setSeed-seeds-default-generator", f.loc(), "setSeed does not seed DEFAULT_GENERATOR with its argument")
 
 
+def _d4(chk, fb):
+    """(a) std distribution objects are per-call automatics: a function-local static one keeps generated-but-unused values
+    (normal_distribution caches the second deviate) across setSeed, so the stream after re-seeding is not reproducible;
+    (b) weighted pick without replacement removes the element and its weight by the same scheme (the two vectors stay parallel)"""
+    n = 0
+    for f in sorted(fb.concrete_fns(), key=lambda x: x.key):
+        if f.body is None:
+            continue
+        for dn in f.all_nodes():
+            if dn["k"] != "DeclStmt":
+                continue
+            for d in dn["decls"]:
+                if re.match(r"(const )?std::\w+_distribution<", d.get("ty") or ""):
+                    n += 1
+                    if d.get("static"):
+                        chk.refuted("D4", f.key, "distribution-object-per-call:" + d["name"], f.loc(dn), "'%s' is a function-local static %s: its internal state (cached deviates) survives RandomTools::setSeed, so the draws after re-seeding depend on how many were made before" % (
+                            d["name"], d["ty"].split("<")[0]), witness={"history": "setSeed(s); one draw; setSeed(s); compare the next draws"})
+                    else:
+                        chk.proved("D4", f.key, "distribution-object-per-call:" + d["name"], f.loc(dn), "automatic %s" % d["ty"].split("<")[0])
+    chk.floor("D4", "std distribution objects", n, 5)
+    fs = [f for f in fb.concrete_fns() if f.qname == RT + "::pickOne" and f.body is not None and len(f.params) == 3 and not f.params[0]["ty"].startswith("const ")]
+    if not fs:
+        raise AnalysisBroken("anchor vanished: RandomTools::pickOne(v, w, replace) instantiation")
+    f = sorted(fs, key=lambda x: x.key)[0]
+    v, w = f.params[0]["name"], f.params[1]["name"]
+
+    def removal(name):
+        out = []
+        for x in f.all_nodes():
+            t = None
+            if x["k"] == "BinaryOperator" and x["op"] == "=":
+                l = strip(kids(x)[0])
+                if is_call(l) and l["callee"]["name"] == "operator[]" and "obj" in l and render(f.obj(l)) == name:
+                    t = "X[%s] = %s" % (render(f.args(l)[0]), render(kids(x)[1]).replace(name + ".", "X."))
+            elif is_call(x) and "obj" in x and render(f.obj(x)) == name and x["callee"]["name"] in ("pop_back", "erase", "resize", "clear", "push_back", "insert"):
+                t = "X.%s(%s)" % (x["callee"]["name"], ", ".join(render(a).replace(name + ".", "X.") for a in f.args(x)))
+            elif is_call(x) and x["callee"]["name"] == "operator=" and "obj" in x:
+                l = strip(f.obj(x))
+                if is_call(l) and l["callee"]["name"] == "operator[]" and "obj" in l and render(f.obj(l)) == name:
+                    t = "X[%s] = %s" % (render(f.args(l)[0]), render(f.args(x)[0]).replace(name + ".", "X."))
+            if t:
+                out.append(t)
+        return sorted(out)
+    rv, rw = removal(v), removal(w)
+    if rv and rv == rw:
+        chk.proved("D4", f.key, "parallel-removal", f.loc(), "element and weight removed by the same scheme: %s" % rv)
+    elif not rv and not rw:
+        chk.unknown("D4", f.key, "parallel-removal", f.loc(), "no removal recognised")
+    else:
+        chk.refuted("D4", f.key, "parallel-removal", f.loc(), "without replacement the element is removed from '%s' by %s but its weight from '%s' by %s: after the first pick the weights no longer belong to their elements" % (v, rv, w, rw),
+                    witness={"history": "two successive weighted picks without replacement from {A,B,C,D} with weights {0,1,1,1}"})
+
+
 def instantiations(fb, headers):
     return ("template int bpp::RandomTools::pickOne<int>(std::vector<int>&, bool);\n"
             "template int bpp::RandomTools::pickOne<int>(const std::vector<int>&);\n"
@@ -325,9 +378,11 @@ def instantiations(fb, headers):
 def run(chk, fb, tier):
     chk.rule("D1", "arguments of std::exponential_distribution / gamma_distribution / normal_distribution constructors inside RandomTools samplers, and arguments randC() passes to those samplers, have the required kind")
     chk.rule("D2", "pickOne tests emptiness (EmptyVectorException) before indexing; getSample refuses 'vout.size() > vin.size() && !replace' before drawing")
+    chk.rule("D4", "std distribution objects are automatic (no function-local static state surviving setSeed); weighted pickOne removes element and weight by the same scheme")
     chk.rule("D3", "every std distribution object is invoked with RandomTools::DEFAULT_GENERATOR; no rand()/random_device/other engine in the library; setSeed seeds DEFAULT_GENERATOR")
     _d1(chk, fb)
     _d2(chk, fb)
     _d3(chk, fb)
+    _d4(chk, fb)
     chk.assume("ISO C++ parameterisation: exponential_distribution(lambda = rate), gamma_distribution(alpha = shape, beta = scale), normal_distribution(mean, stddev)")
     chk.assume("weighted picks are called with size(w) == size(v)")
